@@ -216,11 +216,22 @@ def join_kwargs(call):
               'l_out_prefix', 'r_out_prefix', 'out_sim_score', 'n_jobs'):
         if k in call:
             kw[k] = copy.deepcopy(call[k])
-    kw['show_progress'] = False
+    kw['show_progress'] = bool(call.get('show_progress', False))
+    if call.get('same_out_list') and kw.get('l_out_attrs') is not None:
+        kw['r_out_attrs'] = kw['l_out_attrs']      # ONE list object handed over for both sides
     return kw
 
 
 def exec_call(ssj, call, objs=None):
+    if call.get('show_progress'):
+        import contextlib
+        import io
+        with contextlib.redirect_stdout(io.StringIO()), contextlib.redirect_stderr(io.StringIO()):
+            return _exec_call_backend(ssj, call, objs)
+    return _exec_call_backend(ssj, call, objs)
+
+
+def _exec_call_backend(ssj, call, objs=None):
     """Run one API call under the joblib backend named by call['backend'] ('threading' by default:
     the same job functions on the same chunks, in-process and therefore monitored; 'loky' = the
     library's default process pool)."""
@@ -274,14 +285,18 @@ def _exec_call(ssj, call, objs=None):
             for k in ('l_out_attrs', 'r_out_attrs', 'l_out_prefix', 'r_out_prefix', 'n_jobs'):
                 if k in call:
                     kw[k] = copy.deepcopy(call[k])
+            if call.get('same_out_list') and kw.get('l_out_attrs') is not None:
+                kw['r_out_attrs'] = kw['l_out_attrs']
             if call['filter']['kind'] == 'OverlapFilter' and 'out_sim_score' in call:
                 kw['out_sim_score'] = call['out_sim_score']
             return flt.filter_tables(L, R, call['l_key'], call['r_key'], call['l_attr'],
-                                     call['r_attr'], show_progress=False, **kw)
+                                     call['r_attr'], show_progress=bool(call.get('show_progress', False)),
+                                     **kw)
         C = get('candset', make_table)
         return flt.filter_candset(C, call['c_l_key'], call['c_r_key'], L, R,
                                   call['l_key'], call['r_key'], call['l_attr'], call['r_attr'],
-                                  n_jobs=call.get('n_jobs', 1), show_progress=False)
+                                  n_jobs=call.get('n_jobs', 1),
+                                  show_progress=bool(call.get('show_progress', False)))
     if api == 'apply_matcher':
         L = get('ltable', make_table)
         R = get('rtable', make_table)
@@ -296,9 +311,11 @@ def _exec_call(ssj, call, objs=None):
         return ssj.apply_matcher(C, call['c_l_key'], call['c_r_key'], L, R,
                                  call['l_key'], call['r_key'], call['l_attr'], call['r_attr'],
                                  tok, sf, call['threshold'], call.get('comp_op', '>='),
-                                 show_progress=False, **kw)
+                                 show_progress=bool(call.get('show_progress', False)), **kw)
     if api == 'profile':
         T = get('ltable', make_table)
+        if 'profile_attrs' not in call:
+            return ssj.profile_table_for_join(T)          # argument omitted: the default applies
         return ssj.profile_table_for_join(T, call.get('profile_attrs'))
     if api == 'dataframe_column_to_str':
         T = get('ltable', make_table)
